@@ -44,6 +44,9 @@ Pool == <<
   \* macro expansions that are NOT fresh lists: the macro's own rest list (it aliases the call form inside the shared
   \* function's body) and a template held in a shared global; expanded by several evaluations at once
   "(trace! (shf %T)) (trace! (mtmpl)) (trace! (shf (mtmpl)))",
+  \* a def inside a parameterless function / a future's body binds in THAT scope: the same local name in every program
+  "(def mkl%T (fn [] (def tmp %T) (sleep 2) tmp)) (trace! (mkl%T)) (trace! (try tmp (catch e :unbound)))",
+  "(trace! (let [fu (future (do (def loc %T) (sleep 2) loc))] @fu)) (trace! (try loc (catch e :unbound)))",
   \* a future held in a shared global, already finished, read by several evaluations at once
   "(trace! (list @sfut %T @sfut)) (trace! (map (fn [i] (+ i @sfut)) [1 2 3 %T]))",
   "(def many%T (concat (range 0 50) (range 0 50) (range 0 50))) (trace! (count (map (fn [i] @sfut) many%T))) " \o
